@@ -30,6 +30,12 @@ PROPS = "Props/Properties_C18.v"
 TARGETS = ["Props/Properties_C18.vo"]
 
 KINDS = ["ai", "ap", "asy", "ao", "fm", "lsp", "c", "java"]
+# further requested outputs with more than one file: the generated main file (-Fmain) and C split
+# into pieces with a shared header (-Fc -Csmax=2).  Each entry: label -> (arguments, victim file suffixes)
+MULTI = {
+    "main": (["-Fmain"], ["u-aldormain.c"]),
+    "csplit": (["-Fc", "-Csmax=2"], ["u.h", "u.c", "u002.c"]),
+}
 
 
 # ------------------------------------------------------------------ translator
@@ -92,7 +98,26 @@ def generate():
 SRC_TEXT = '''#include "aldor"
 #include "aldorio"
 Foo: with { f: MachineInteger -> MachineInteger } == add { f(x: MachineInteger): MachineInteger == x + 1 }
+import from MachineInteger, Foo;
+g(n: MachineInteger): MachineInteger == if n < 2 then 1 else n * g(n - 1);
+h(n: MachineInteger): MachineInteger == f(n) + g(n);
+stdout << h(5) << newline;
 '''
+
+
+def run_multi(exe, shim, work, idx, label, victim):
+    """one requested multi-file output; victim = file suffix redirected to /dev/full (None = no fault)"""
+    d = "%s/m%d" % (work, idx)
+    os.makedirs(d)
+    open(d + "/u.as", "w").write(SRC_TEXT)
+    env = C.aldor_env()
+    args, victims = MULTI[label]
+    if victim:
+        env["LD_PRELOAD"] = shim
+        env["VERIF_FAIL_PATH"] = victim
+    rc, out, err = C.run(C.aldor_base_args(exe) + args + ["u.as"], cwd=d, env=env, timeout=120)
+    files = {f: os.path.getsize(d + "/" + f) for f in sorted(os.listdir(d)) if f != "u.as" and os.path.isfile(d + "/" + f)}
+    return dict(label=label, args=args, victim=victim, rc=rc, text=(out + err)[:600], files=files)
 
 
 def out_path(kind, d):
@@ -197,7 +222,27 @@ def run(rep, tier):
         elif not has_diag:
             rep.violation("non-zero exit without any error message (-F%s, %s)" % (r["victim"], r["fault"]), r,
                           key="nodiag:%s:%s" % (r["fault"], r["victim"]))
-    rep.add_cov(evaluations=len(results), distinct_nontrivial=len({(tuple(r["kinds"]), r["fault"], r["victim"]) for r in results if r["fault"]}),
+    # multi-file outputs
+    mres = []
+    for li, (label, (margs, victims)) in enumerate(sorted(MULTI.items())):
+        ref_m = run_multi(exe, shim, d0, 100 * li, label, None)
+        if ref_m["rc"] != 0 or not all(any(f.endswith(v) for f in ref_m["files"]) for v in victims):
+            rep.violation("fault-free run of %s failed or did not produce %s" % (margs, victims), ref_m)
+            continue
+        for vi, v in enumerate(victims):
+            r = run_multi(exe, shim, d0, 100 * li + vi + 1, label, v)
+            mres.append(r)
+            has_diag = re.search(r"\((Fatal Error|Error)\)", r["text"]) is not None
+            if r["rc"] < 0 or "Program fault" in r["text"] or "Compiler bug" in r["text"]:
+                rep.violation("compiler faulted while handling an unwritable output (%s, %s)" % (label, v), r, key="fault:full:%s:%s" % (label, v))
+            elif r["rc"] == 0:
+                rep.violation("exit status 0 although %s of the requested output %s could not be written (device full)"
+                              % (v, " ".join(margs)), r, key="exit0:full:%s:%s" % (label, v))
+            elif not has_diag:
+                rep.violation("non-zero exit without any error message (%s, %s)" % (label, v), r, key="nodiag:full:%s:%s" % (label, v))
+    results_n = len(results) + len(mres)
+    rep.add_cov(multi_file_cases=[{k: r[k] for k in ("label", "victim", "rc")} for r in mres])
+    rep.add_cov(evaluations=results_n, distinct_nontrivial=len({(tuple(r["kinds"]), r["fault"], r["victim"]) for r in results if r["fault"]}) + len(mres),
                 rule="each case = (requested output kinds, injected fault in {full,isdir,notdir}, victim output); non-trivial = a fault is injected; "
                      "kinds " + ",".join(KINDS),
                 samples=[{k: r[k] for k in ("args", "fault", "victim", "rc", "sizes")} for r in results[:3] + results[-2:]],
